@@ -243,7 +243,7 @@ theorem step_sound (env : List Reg) (op : Op) (henv : ∀ r ∈ env, r.Inv) : St
     | some a =>
       have ha : a.Inv := henv a (List.mem_of_getElem? hi)
       have := kind_pow a.kind a.q n ((Reg.inv_iff a).1 ha)
-      simp only [Option.map_some, Option.bind_eq_bind, Option.bind_some]
+      simp only [Option.map_some, Option.bind_eq_bind, Option.bind_some, Spec.qpow_eq]
       exact goodReg_ok (r := ⟨a.kind, _⟩) this.1 this.2
   | mulSign i s =>
     simp only [step, Spec.step, getElem?_map_val]
